@@ -176,6 +176,15 @@ class _RecFeatureBase(Feature):
 RecFeature = type("RecFeature", (_RecFeatureBase,), _mk_callbacks("feature", FEATURE_EVENT_CLASSES))
 
 
+class RecFeatureInherited(RecFeature):
+    """The same feature, but every callback is inherited from the parent class (a user who subclasses a
+    feature to tweak parse() expects the subscriptions to come along)."""
+
+
+class RecStateInherited(RecState):
+    """A state whose callbacks are all inherited."""
+
+
 class _RecWindowStateBase(State):
     """The library's windowed State, with recording callbacks added."""
 
@@ -307,8 +316,10 @@ class EnvHandle(object):
         if st.get("crash_on"):
             sink.crash_on[tag] = set(st["crash_on"])
         if st["type"] == "rec":
-            feats = [RecFeature(sink, tag, st.get("k", 3), name="roll", reads_account=bool(st.get("reads_account")))] if st.get("feature", True) else None
-            self.state = RecState(sink, tag, feats)
+            fcls = RecFeatureInherited if st.get("inherited") else RecFeature
+            scls = RecStateInherited if st.get("inherited") else RecState
+            feats = [fcls(sink, tag, st.get("k", 3), name="roll", reads_account=bool(st.get("reads_account")))] if st.get("feature", True) else None
+            self.state = scls(sink, tag, feats)
         elif st["type"] == "window":
             self.state = RecWindowState(sink, tag, st["n"], st["window"], st.get("stride"))
         else:
